@@ -406,7 +406,7 @@ func init() {
 		}
 		r.Set("cli_cross_checked", sw.pool.CrossChecked.Load())
 		r.Set("watchdog_seconds", gen.Horizon.Seconds())
-		r.Set("rule", "real generator under a watchdog (20 s against a normal 0.03 s; 6 GB) on: every pattern shape of L1; long and deeply nested stress shapes (20 consecutive nullable multi-alternative groups, nesting depth 15, 60 alternatives, 40-term sequences, 30-symbol bodies, a 12-level nullable chain); seed grammars x all 64 flag subsets (3 seeds; the 8 file-affecting combinations for the others) x four output forms (-o sub, -o sub/deeper, -o $PWD/sub, -p only); hostile spellings (names, string literals over all ASCII punctuation, character literals, action texts, headers); every token-level mutant and every byte-level mutant of seeds. Every run must terminate; exit 0 => every package the configuration calls for is present (token, util; lexer unless -no_lexer, which must then be absent; parser and errors iff there is a syntax part), no emitted Go file empty; a deterministic selection of distinct exit-0 outputs whose header/actions are valid Go is compiled with go build; distinct = exit-0 runs with complete output")
+		r.Set("rule", "real generator under a watchdog (20 s against a normal 0.03 s; 6 GB) on: every pattern shape of L1; long and deeply nested stress shapes (20 consecutive nullable multi-alternative groups, nesting depth 15, 60 alternatives, 40-term sequences, 30-symbol bodies, a 12-level nullable chain); seed grammars x all 64 flag subsets (3 seeds; the 8 file-affecting combinations for the others) x four output forms (-o sub, -o sub/deeper, -o $PWD/sub, -p only), and ten spellings of those directories that are not canonical (trailing slash, ./, //, -o together with -p); hostile spellings (names, string literals over all ASCII punctuation, format verbs, template syntax, bytes that are not UTF-8, character literals, action texts, headers); a sweep of byte values (quick: control bytes, punctuation, UTF-8 boundary bytes; thorough: all 256) inside an interpreted string literal, a raw string literal and a character literal; every token-level mutant and every byte-level mutant of seeds. Every run must terminate; exit 0 => every package the configuration calls for is present (token, util; lexer unless -no_lexer, which must then be absent; parser and errors iff there is a syntax part), no emitted Go file empty; a deterministic selection of distinct exit-0 outputs whose header/actions are valid Go is compiled with go build; distinct = exit-0 runs with complete output")
 		r.Assumption("non-termination is observed as exceeding the watchdog (600x the normal running time), in-process and again through the real CLI")
 		return r.Finish(nil)
 	}
